@@ -243,7 +243,8 @@ def build_source(case):
     out.append("int *p0 = &garr[3] + 2 - 1; char *p1 = (char *)&gs.c + 3; long *p2 = &gsl[1 + 2]; const char *p3 = \"abcdef\" + 4; int *p4 = &gobj;"
                " char *p5 = (char *)garr + sizeof(int) * 2; long *p6 = gsl + (EB - 3); int *p7 = &*&garr[1]; char *p8 = &(\"xyz\"[1]);"
                " int *p9 = 2 + &garr[1]; int *p10 = 1 + (2 + garr); long p11 = 8 + (long)&garr[1]; long *p12 = 1 + (&gsl[3] - 2); char *p13 = 3 + ((char *)&gs + 2) - 1;"
-               " int *p14 = (1 + garr) + 1;")
+               " int *p14 = (1 + garr) + 1; int *p15 = &garr[5] - 3u; long *p16 = &gsl[3] - (unsigned)2; int *p17 = garr + 5u - 1u; char *p18 = (char *)&gs + 20 - (unsigned char)4;"
+               " int *p19 = &garr[9] - 1ul - 2ll - (short)3; long *p20 = gsl + 3 - (unsigned short)1; int *p21 = &garr[7] - U'\\2';")
     return "\n".join(out) + "\n", names
 
 
@@ -258,7 +259,8 @@ def vlit_plus1(it):
 
 
 ADDR = {"p0": ("garr", 16), "p1": ("gs", 19), "p2": ("gsl", 24), "p4": ("gobj", 0), "p5": ("garr", 8), "p6": ("gsl", 16), "p7": ("garr", 4),
-        "p9": ("garr", 12), "p10": ("garr", 12), "p11": ("garr", 12), "p12": ("gsl", 16), "p13": ("gs", 4), "p14": ("garr", 8)}
+        "p9": ("garr", 12), "p10": ("garr", 12), "p11": ("garr", 12), "p12": ("gsl", 16), "p13": ("gs", 4), "p14": ("garr", 8),
+        "p15": ("garr", 8), "p16": ("gsl", 8), "p17": ("garr", 16), "p18": ("gs", 16), "p19": ("garr", 12), "p20": ("gsl", 16), "p21": ("garr", 20)}
 
 
 def const_check(case, ctx):
